@@ -57,6 +57,10 @@ def case(g, tier, ci):
             ops += sg.element(eid, SR, N, order, raw_p=0.25, kinds=("ramp",), markers=True, flags_p=fp, nseg=(1, 3))
             for ch in chans:
                 amps[ch] = 4.5
+        if r.random() < 0.3:
+            # flags assigned a second time (0 / '' must overwrite, not keep, the earlier flag)
+            ops.append({"op": "el.addFlags", "id": eid, "ch": r.choice(order),
+                        "flags": [enc(r.choice([0, "", 0, 1, "T"])) for _ in range(4)]})
         if r.random() < 0.15:
             ops.append({"op": "el.addFlags", "id": eid, "ch": order[0],
                         "flags": r.choice([[0, 1, 2], [0, 1, 2, 3, 4], [0, 5, 0, 0], [enc("X"), 0, 0, 0], [0, 0, 0, enc("h")]])})
